@@ -251,6 +251,9 @@ void runS5(Ctx &ctx, const QString &caseId, const QJsonObject &beh, int idx)
     // the model behaviour this execution stands for, echoed for the trace specification
     for (const auto &sv : steps) {
         auto st = sv.toObject();
+        if (st["a"].toString() == "ForeignOffer") {
+            continue;   // logged with its observation when it happens
+        }
         st["e"] = st["a"];
         st.remove("a");
         ctx.emit_(st);
@@ -309,6 +312,19 @@ void runS5(Ctx &ctx, const QString &caseId, const QJsonObject &beh, int idx)
 
     QTimer tick;
     tick.setSingleShot(true);
+    // a listening socket nobody should ever connect to: the stream host of the foreign offer
+    QTcpServer trap;
+    int trapHits = 0;
+    trap.listen(QHostAddress::LocalHost, 0);
+    QObject::connect(&trap, &QTcpServer::newConnection, &trap, [&]() {
+        while (auto *c = trap.nextPendingConnection()) {
+            ++trapHits;
+            c->close();
+            c->deleteLater();
+        }
+    });
+    const QString foreign = beh["foreign"].toString();
+    bool foreignDone = false;
     int stanzas = 0, idle = 0, rounds = 0;
     bool rewrote = false;
     QString last = stateKey();
@@ -323,6 +339,44 @@ void runS5(Ctx &ctx, const QString &caseId, const QJsonObject &beh, int idx)
             el.setAttribute("from", kA);
             auto q = el.firstChildElement("query");
             if (!q.isNull() && q.namespaceURI() == "http://jabber.org/protocol/bytestreams" && el.attribute("type") == "set") {
+                if (!foreign.isEmpty() && !foreignDone) {
+                    // just before the genuine stream host offer arrives: the same offer (right session id)
+                    // from a foreign full JID, pointing at the trap.  It must be refused and change nothing.
+                    foreignDone = true;
+                    const QString fjid = foreign == "res" ? QStringLiteral("alice@example.org/other") : QStringLiteral("mallory@example.org/x");
+                    auto fdoc = qxvParseStream(xml);
+                    auto fel = fdoc.documentElement().firstChildElement();
+                    fel.setAttribute("from", fjid);
+                    fel.setAttribute("id", "forged-bytestreams");
+                    for (auto sh = fel.firstChildElement("query").firstChildElement("streamhost"); !sh.isNull(); sh = sh.nextSiblingElement("streamhost")) {
+                        sh.setAttribute("host", "127.0.0.1");
+                        sh.setAttribute("port", QString::number(trap.serverPort()));
+                        sh.setAttribute("jid", fjid);
+                    }
+                    const QString rs0 = rJob ? stateName(rJob->state()) : QStringLiteral("None");
+                    const QString re0 = rJob ? errorName(rJob->error()) : QStringLiteral("NoError");
+                    b->injectElement(fel);
+                    for (int i = 0; i < 5; i++) {
+                        tick.start(20);
+                        QCoreApplication::processEvents(QEventLoop::AllEvents | QEventLoop::WaitForMoreEvents);
+                    }
+                    QString reply = "none";
+                    for (const auto &rx : b->takeSent()) {
+                        auto rdoc = qxvParseStream(rx);
+                        auto rel = rdoc.documentElement().firstChildElement();
+                        if (rel.attribute("to") == fjid) {
+                            reply = rel.attribute("type") == "error" ? "err" : (rel.attribute("type") == "result" ? "res" : "other");
+                        } else {
+                            rel.setAttribute("from", kB);
+                            a->injectElement(rel);
+                        }
+                    }
+                    ctx.emit_({ { "e", "ForeignOffer" }, { "w", foreign },
+                                { "o", QJsonObject { { "reply", reply }, { "rs0", rs0 }, { "re0", re0 },
+                                                     { "rs", rJob ? stateName(rJob->state()) : QStringLiteral("None") },
+                                                     { "re", rJob ? errorName(rJob->error()) : QStringLiteral("NoError") },
+                                                     { "trap", trapHits } } } });
+                }
                 // keep one stream host and point it at the proxy
                 bool first = true;
                 for (auto sh = q.firstChildElement("streamhost"); !sh.isNull();) {
@@ -385,6 +439,7 @@ void runS5(Ctx &ctx, const QString &caseId, const QJsonObject &beh, int idx)
         { "rfin", rFin },
         { "sfin", sFin },
         { "applied", proxy.applied },
+        { "trap", trapHits },
         { "ann", ann },
         { "k", proxy.fault.k },
         { "fwd", double(proxy.forwarded) },
